@@ -204,6 +204,69 @@ def do_capture(c):
     return r
 
 
+def do_multicapture(c):
+    """several encrypted sessions (different LTK and/or SKD/IV) seen by ONE LinkLayerDecryptor.
+    c = {"keys": [hex] registered up front, "way": "direct" | "sniffer",
+         "sessions": [{"ltk", "mat", "esi": {"rand","ediv"}}], "events": [[session, d, plain pdu hex, captured]]}
+    direct: every session's material is added up front (session order); sniffer: the cleartext LL_ENC_REQ /
+    LL_ENC_RSP / LL_START_ENC_REQ of a session are sniffed just before its first PDU."""
+    from whad.ble.crypto import EncryptedSessionInitialization
+    from whad.ble.exceptions import MissingCryptographicMaterial
+    from scapy.layers.bluetooth4LE import BTLE_CTRL, LL_ENC_REQ, LL_ENC_RSP, LL_START_ENC_REQ
+    dec = LinkLayerDecryptor(*[bytes.fromhex(k) for k in c["keys"]])
+    esi = EncryptedSessionInitialization()
+    sess = []
+    for s_ in c["sessions"]:
+        sk, iv = ref_session(bytes.fromhex(s_["ltk"]), s_["mat"])
+        sess.append({"sk": sk, "iv": iv, "cnt": {1: 0, 2: 0}, "started": False})
+    if c["way"] == "direct":
+        for s_ in c["sessions"]:
+            dec.add_crypto_material(*s_["mat"])
+    air, plain, sid, obs = [], [], [], []
+
+    def sniff(raw_pdu, sink):
+        pkt = BTLE(struct.pack("<I", 0x50655f3a) + raw_pdu + b"\x11\x22\x33")
+        if c["way"] == "sniffer":
+            esi.process_packet(pkt)
+            if esi.encryption:
+                dec.add_crypto_material(*esi.crypto_material)
+                esi.reset()
+        try:
+            res, ok = dec.attempt_to_decrypt(pkt[BTLE])
+        except MissingCryptographicMaterial:
+            sink.append({"k": 3, "d": "MissingCryptographicMaterial"})
+            return
+        except Exception as e:  # noqa
+            sink.append({"k": 3, "d": type(e).__name__})
+            return
+        if res is None:
+            sink.append({"k": 0, "d": "", "ok": bool(ok)})
+        else:
+            try:
+                sink.append({"k": 1, "d": bytes(res).hex(), "ok": bool(ok)})
+            except Exception as e:  # noqa
+                sink.append({"k": 3, "d": "build:" + type(e).__name__})
+
+    for si, d, hx, captured in c["events"]:
+        S, spec = sess[si], c["sessions"][si]
+        if c["way"] == "sniffer" and not S["started"]:
+            skdm, ivm, skds, ivs = spec["mat"]
+            for p in (BTLE_DATA(LLID=3) / BTLE_CTRL() / LL_ENC_REQ(rand=spec["esi"]["rand"], ediv=spec["esi"]["ediv"], skdm=skdm, ivm=ivm),
+                      BTLE_DATA(LLID=3) / BTLE_CTRL() / LL_ENC_RSP(skds=skds, ivs=ivs),
+                      BTLE_DATA(LLID=3) / BTLE_CTRL() / LL_START_ENC_REQ()):
+                sniff(bytes(p), [])
+        S["started"] = True
+        pdu = bytes.fromhex(hx)
+        a = ref_encrypt(S["sk"], S["iv"], S["cnt"][d], d == 1, pdu)
+        S["cnt"][d] += 1
+        if captured:
+            air.append(a.hex()); plain.append(hx); sid.append(si)
+            sniff(a, obs)
+    final = [[k.hex(), m.master_cnt, m.slave_cnt] for k, m in dec.managers.items()]
+    return {"obs": obs, "final": final, "air": air, "plain": plain, "sid": sid,
+            "materials": [list(t) for t in zip(dec.master_skd, dec.master_iv, dec.slave_skd, dec.slave_iv)]}
+
+
 def do_decryptor_sniffer_way(c, air):
     """Feed the material the way whad/ble/connector/sniffer.py does: the cleartext LL_ENC_REQ, LL_ENC_RSP and
     LL_START_ENC_REQ PDUs (dissected from bytes) go through EncryptedSessionInitialization; when it reports
@@ -375,7 +438,8 @@ def main():
            "pair": [guarded(do_pair, c) for c in req.get("pair", [])],
            "link": [guarded(do_link, c) for c in req.get("link", [])],
            "capture": [guarded(do_capture, c) for c in req.get("capture", [])],
-           "stack": [guarded(do_stack, c) for c in req.get("stack", [])]}
+           "stack": [guarded(do_stack, c) for c in req.get("stack", [])],
+           "multicapture": [guarded(do_multicapture, c) for c in req.get("multicapture", [])]}
     print("RESULT " + json.dumps(res))
 
 
